@@ -27,6 +27,15 @@ Theorem C20_parser_value_is_unescape : forall v u, tc_unescape v = Some u ->
 Proof. exact val_run. Qed.
 Print Assumptions C20_parser_value_is_unescape.
 
+(* the converse: whatever the parser accepts between two quotes is a well-formed escaped value, decoded as tc_unescape decodes it
+   (so an accepted value holds no raw ' [ ] CR LF and does not end in a lone |) *)
+Theorem C20_parser_accepts_only_wellformed_values : forall nm attrs k l nm' attrs',
+  run_sm (MVal nm attrs k []) l = Some (MDone nm' attrs') ->
+  exists v rest u, l = v ++ 39 :: rest /\ tc_unescape v = Some u /\ no_raw_special v = true
+                   /\ run_sm (MAfter nm ((k, u) :: attrs)) rest = Some (MDone nm' attrs').
+Proof. exact accepted_value_wellformed. Qed.
+Print Assumptions C20_parser_accepts_only_wellformed_values.
+
 (* the registry's loop with its groupStart flag brackets exactly the maximal runs of equally named groups *)
 Theorem C20_registry_order : forall ts, events_of ts = flat_map seg_events (segments ts).
 Proof. exact reg_loop_segments. Qed.
